@@ -45,7 +45,7 @@ def run(tier, seed):
               'for membership, objective labels converted and back under both sign conventions, padded arrays un-padded; the live scaler '
               'compared with the translated formulas; DefaultModelInputConverter decoding compared with the model; '
               'non-trivial = scaled or one-hot configuration or out-of-range array')
-  rep.trusted = ['Coq 8.16.1 kernel + vm_compute', 'standard-library real-number axioms (see assumptions)',
+  rep.trusted = ['harness/translate/scaledispatch.py (Python-ast translator of the dispatch of scaler_from_spec and the scale mapping of continuify, fail-closed)', 'Coq 8.16.1 kernel + vm_compute', 'standard-library real-number axioms (see assumptions)',
                  'harness/translate/scalers.py (Python-ast translator, fail-closed)', 'exact rationals / reals instead of float32/float64',
                  'harness/spaces.py membership oracle']
   broke = None
@@ -53,6 +53,11 @@ def run(tier, seed):
     C.write_gen('Gen/Scalers.v', scalers.translate(C.REPO))
   except Exception as e:  # pylint: disable=broad-except
     broke = 'translator harness/translate/scalers.py refused converters/core.py: %r' % (e,)
+  try:
+    from harness.translate import scaledispatch
+    C.write_gen('Gen/ScaleDispatchSrc.v', scaledispatch.translate(C.REPO))
+  except Exception as e:  # pylint: disable=broad-except
+    broke = ((broke or '') + ' translator harness/translate/scaledispatch.py refused converters/core.py / parameter_config.py: %r' % (e,)).strip()
   C.standard_proof_step(rep, 'C15')
   broke = ((broke or '') + ' ' + (rep.proof_broken or '')).strip() or None
   concrete = False
@@ -79,6 +84,20 @@ def run(tier, seed):
     problem, meta = spaces.gen_space(r, vz)
     opts = {'scale': r.random() < 0.7, 'onehot_embed': r.random() < 0.6, 'pad_oovs': r.random() < 0.6,
             'max_discrete_indices': r.choice([0, 10, 10, np.inf]), 'dtype': r.choice([np.float32, np.float64, np.float64])}
+    if si % 2 == 0:
+      # INTEGER / DISCRETE parameters that carry a scale type: with more feasible values than max_discrete_indices they become
+      # continuous features and must be scaled with the formula of their scale type
+      sc_ = r.choice(['LINEAR', 'LOG', 'REVERSE_LOG', 'REVERSE_LOG'])
+      if r.random() < 0.5:
+        lo_i = r.choice([1, 2, 10])
+        hi_i = lo_i + r.choice([11, 15, 40])
+        problem.search_space.root.add_int_param('pis', lo_i, hi_i, scale_type=getattr(vz.ScaleType, sc_))
+        meta['pis'] = ('i', (lo_i, hi_i))
+      else:
+        vals_ = sorted(r.sample([0.5, 1.0, 1.5, 2.0, 3.0, 4.0, 6.0, 8.0, 12.0, 16.0, 24.0, 32.0, 48.0, 64.0], r.choice([3, 11, 12])))
+        problem.search_space.root.add_discrete_param('pds', vals_, scale_type=getattr(vz.ScaleType, sc_))
+        meta['pds'] = ('d', vals_)
+      rep.count('space_with_scaled_integer_or_discrete_%s' % sc_)
     if si % 5 == 2:
       # a log-scaled parameter whose distinct bounds have the same logarithm in the feature dtype (scaling must not divide by 0)
       lo_, hi_, dt_ = r.choice([(1000.0, 1000.0001, np.float32), (1e15, 1e15 + 1.0, np.float64), (1e15, 1e15 + 2.0, np.float64)])
@@ -178,6 +197,50 @@ def run(tier, seed):
               if not all(a <= b + ft for a, b in zip(colv, colv[1:])) or abs(colv[0]) > ft or abs(colv[-1] - 1) > ft:
                 viol('scaled feature is not increasing from 0 to 1 over the parameter range', {'parameter': nm, 'range': dom, 'values': vals, 'features': colv.tolist()})
             idx += spec.num_dimensions
+    # the documented formula of each scale type, at interior points, for every parameter that is encoded as one continuous feature
+    # (DOUBLE, and INTEGER / DISCRETE with more values than max_discrete_indices)
+    if opts['scale']:
+      for nm, (kind, dom) in meta.items():
+        if kind not in ('f', 'i', 'd'):
+          continue
+        lo, hi = (float(dom[0]), float(dom[1])) if kind in ('f', 'i') else (float(min(dom)), float(max(dom)))
+        if not lo < hi:
+          continue
+        sct = problem.search_space.get(nm).scale_type
+        scn = 'LINEAR' if sct is None else sct.name
+        if scn not in ('LINEAR', 'LOG', 'REVERSE_LOG') or (scn != 'LINEAR' and lo <= 0):
+          continue
+        if scn != 'LINEAR' and not math.log(hi) - math.log(lo) > 1e-3:
+          continue    # nearly degenerate log range: covered by the round-trip and unit-interval checks only
+        idx, found = 0, None
+        for spec in conv.output_specs:
+          if spec.name == nm and spec.type.name == 'CONTINUOUS' and spec.num_dimensions == 1:
+            found = idx
+          idx += spec.num_dimensions
+        if found is None:
+          continue
+        if kind == 'f':
+          xs = [lo + (hi - lo) * q for q in (0.0, 0.25, 0.5, 0.8, 1.0)]
+        elif kind == 'i':
+          xs = sorted({int(lo), int(hi), int(lo + (hi - lo) * 0.3), int(lo + (hi - lo) * 0.7)})
+        else:
+          xs = list(dom)
+        base = sample_point(meta)
+        f = np.asarray(conv.to_features([vz.Trial(parameters=dict(base, **{nm: v})) for v in xs]), dtype=float)[:, found]
+        def formula(x):
+          if scn == 'LINEAR':
+            return (x - lo) / (hi - lo)
+          if scn == 'LOG':
+            return (math.log(x) - math.log(lo)) / (math.log(hi) - math.log(lo))
+          return 1.0 - (math.log(lo + hi - x) - math.log(lo)) / (math.log(hi) - math.log(lo))
+        want = [formula(float(x)) for x in xs]
+        slope = (1.0 / (lo * math.log(hi / lo))) if scn != 'LINEAR' else 1.0 / (hi - lo)
+        tol = 64 * eps * (max(abs(lo), abs(hi)) * slope + 1.0)
+        rep.count('formula_%s_%s' % (scn, kind))
+        if any(abs(a - b) > tol for a, b in zip(f.tolist(), want)):
+          viol('scaled feature differs from the %s formula of the parameter\'s scale type' % scn,
+               {'parameter': nm, 'kind': kind, 'scale_type': scn, 'range': [lo, hi], 'values': xs, 'features': f.tolist(), 'formula': want,
+                'options': {k: str(v) for k, v in opts.items()}})
     # arbitrary arrays decode into the space
     dim = sum(s.num_dimensions for s in conv.output_specs)
     def column_values(spec):
